@@ -1,5 +1,6 @@
 import LZ4V.Proofs.FastCap
 import LZ4V.Proofs.Arith
+import LZ4V.Proofs.FastXProof
 /-!
 # C09 — block compressors honour the destination-capacity contract (specification + regenerated bound part)
 -/
@@ -56,5 +57,14 @@ theorem fast_compressor_fits_capacity (P : LZ4V.Model.Fast.Params) (src : Array 
 theorem fast_compressor_succeeds_at_bound (P : LZ4V.Model.Fast.Params) (src : Array UInt8) (tableSize : Nat)
     (hl : P.limit = none) (hn : src.size ≤ LZ4_MAX_INPUT_SIZE) : ∃ blk, LZ4V.Model.Fast.compress P src tableSize = some blk :=
   LZ4V.Model.Fast.compress_succeeds P src tableSize hl hn
+
+open LZ4V.Model.FastX in
+/-- **streaming calls stay within `LZ4_compressBound` as well**: whatever the history, the placement and the dictionary, a block returned by
+    `LZ4_compress_fast_continue` (model `Model/FastX.lean`) is at most `n + n/255 + 2` bytes long, which is below `LZ4_compressBound(n)` -/
+theorem stream_block_within_bound (hashOf : Array UInt8 → Bool → Nat → Nat) (ops : List Op) (k addr : Nat) (data : Array UInt8) (acc : Int) (cap : Nat)
+    (blk : List UInt8) (hop : ops[k]? = some (.compress addr data acc cap)) (h : (run hashOf {} ops)[k]? = some (.block (some blk))) :
+    blk.length ≤ data.size + data.size / 255 + 2 := by
+  have := (run_parsed hashOf ops {} [] JX_init (LZ4V.Model.FastX.IsTail.refl _) k addr data acc cap blk hop h [] _ rfl (Or.inl rfl)).size_le
+  rwa [Array.length_toList] at this
 
 end LZ4V.C09
